@@ -291,4 +291,65 @@ def allOps : Items → List Nat
   | .op id rest => id :: allOps rest
   | .stream sub rest => allOps sub ++ allOps rest
 
+/-! ### the aiohttp trace hooks (esrally/client/factory.py): which wire events one HTTP request produces
+
+`EsClientFactory.create_async` registers callbacks for signals of aiohttp's `TraceConfig`; the callbacks call
+`RequestContextHolder.on_request_start` / `on_request_end`.  Which signals aiohttp emits for one HTTP request
+depends on how the request ends (aiohttp `ClientSession._request` + elastic_transport's node, which reads the whole
+body with `response.read()`; validated against the real stack by the correspondence stream `real_client`):
+
+* `complete` — response received completely (any status, also HEAD): `on_request_start`, `on_request_end` when the
+  response headers have arrived, `on_response_chunk_received` once, when the body is complete;
+* `failBeforeHeaders` — time-out / connection error / cancellation before the headers: `on_request_start`,
+  `on_request_exception`;
+* `failAfterHeaders` — time-out / connection loss / cancellation while the body is read (outside `_request`):
+  `on_request_start`, `on_request_end` — and **no further signal** (elastic/rally#1860). -/
+inductive Signal
+  | requestStart | requestEnd | chunkReceived | requestException | other
+  deriving DecidableEq, Repr
+
+inductive HookAct
+  | start | stop | other
+  deriving DecidableEq, Repr
+
+inductive Outcome
+  | complete | failBeforeHeaders | failAfterHeaders
+  deriving DecidableEq, Repr
+
+def signalsOf : Outcome → List Signal
+  | .complete => [.requestStart, .requestEnd, .chunkReceived]
+  | .failBeforeHeaders => [.requestStart, .requestException]
+  | .failAfterHeaders => [.requestStart, .requestEnd]
+
+def Signal.ofCode : Nat → Signal
+  | 0 => .requestStart | 1 => .requestEnd | 2 => .chunkReceived | 3 => .requestException | _ => .other
+
+def HookAct.ofCode : Nat → HookAct
+  | 0 => .start | 1 => .stop | _ => .other
+
+/-- the registration table as generated from factory.py (`RallyGen/TraceHooks.lean`) -/
+def decodeReg (l : List (Nat × Nat)) : List (Signal × HookAct) := l.map (fun p => (Signal.ofCode p.1, HookAct.ofCode p.2))
+
+/-- the request-context callbacks (wire events) one HTTP request with outcome `o` produces, in order: those of the
+    registered trace hooks, followed — when `RallyAsyncElasticsearch.perform_request` itself handles a failing
+    transport call (`eof ≥ 1`: `except …: self.on_request_end(); raise`) — by one more end for a failed request that is
+    the `last` attempt of the transport (elastic_transport may re-send a failed request before it gives up) -/
+def hookActs (reg : List (Signal × HookAct)) (eof : Nat) (o : Outcome) (last : Bool := true) : List HookAct :=
+  (signalsOf o).flatMap (fun sg => (reg.filter (fun p => p.1 == sg && p.2 != .other)).map (·.2)) ++
+  (if eof ≥ 1 && o != .complete && last then [.stop] else [])
+
+/-- is an end recorded at the moment the exchange is over?  `complete`: the last signal (`on_response_chunk_received`,
+    body complete) is wired to the end; `failBeforeHeaders`: `on_request_exception` is emitted at the moment of the
+    failure; `failAfterHeaders`: aiohttp emits nothing at that moment — only a handler in `perform_request` that covers
+    every exception (`eof = 2`, also cancellation) can record it. -/
+def endsWhenOver (reg : List (Signal × HookAct)) (eof : Nat) : Outcome → Bool
+  | .complete => reg.contains (.chunkReceived, .stop)
+  | .failBeforeHeaders => reg.contains (.requestException, .stop) || eof == 2
+  | .failAfterHeaders => eof == 2
+
+/-- one start, first; then at least one end and nothing else: "every wire request that starts also ends" -/
+def startsAndEnds : List HookAct → Bool
+  | .start :: rest => !rest.isEmpty && rest.all (· == .stop)
+  | _ => false
+
 end Ctx
